@@ -57,7 +57,7 @@ type caseCtx struct {
 
 func shapeCase[T any](c *caseCtx, shape string, mk func(int) T, idOf func(T) int, customName bool) {
 	for _, kind := range []string{"memory", "sqlite-mem", "memory-paged", "sqlite-batch2"} {
-		for _, api := range []string{"persist-name", "replay-eventtype-compare", "subscribe-replay-phase", "subscribe-live-phase", "upcast-as-source", "upcast-rename-only", "upcast-as-target", "upcast-target-into-subscription", "upcast-chain-into-subscription", "name-after-upcasting-replay"} {
+		for _, api := range []string{"persist-name", "replay-eventtype-compare", "subscribe-replay-phase", "subscribe-live-phase", "upcast-as-source", "upcast-rename-only", "upcast-as-target", "upcast-target-into-subscription", "upcast-chain-into-subscription", "name-after-upcasting-replay", "clear-upcasts-for-type"} {
 			sig := fmt.Sprintf("%s|%s|%s", shape, api, kind)
 			msg := apiCase(c, kind, api, mk, idOf)
 			c.run.Case(sig, customName)
@@ -235,6 +235,25 @@ func apiCase[T any](c *caseCtx, kind, api string, mk func(int) T, idOf func(T) i
 		}
 		if fmt.Sprint(got) != "[1]" {
 			return fmt.Sprintf("after an upcasting replay on another bus, SubscribeWithReplay[T] replayed %v of the persisted events [1]", got)
+		}
+	case "clear-upcasts-for-type":
+		// the upcaster of T is withdrawn with ClearUpcastsForType(EventType(T)) after a replay has
+		// already used it: from then on T is handed out, and selected, under its own name again
+		ebu.Publish(bus, mk(1))
+		if err := ebu.RegisterUpcast(bus, func(t T) upTo { return upTo{ID: idOf(t) + 100} }); err != nil {
+			return "RegisterUpcast: " + err.Error()
+		}
+		var before []string
+		bus.ReplayWithUpcast(ctx, ebu.OffsetOldest, func(e *ebu.StoredEvent) error { before = append(before, e.Type); return nil })
+		bus.ClearUpcastsForType(name)
+		var after []string
+		bus.ReplayWithUpcast(ctx, ebu.OffsetOldest, func(e *ebu.StoredEvent) error { after = append(after, e.Type); return nil })
+		var got []int
+		if err := ebu.SubscribeWithReplay(ctx, bus, "s6", func(e T) { got = append(got, idOf(e)) }); err != nil {
+			return "SubscribeWithReplay: " + err.Error()
+		}
+		if fmt.Sprint(before) != fmt.Sprint([]string{ebu.EventType(upTo{})}) || fmt.Sprint(after) != fmt.Sprint([]string{name}) || fmt.Sprint(got) != "[1]" {
+			return fmt.Sprintf("with the upcaster registered the event was handed out as %v; after ClearUpcastsForType(%q) as %v (want [%s]), and SubscribeWithReplay[T] replayed %v (want [1])", before, name, after, name, got)
 		}
 	}
 	return ""
